@@ -48,6 +48,16 @@ RULE = ("(1) EVERY .co file under the repository (exhaustive, both tiers), versi
         "break/continue directly and nested in if/when, on real RuntimeV2_x (85 %) / LLMRails (15 %) objects, all live instances inspected after every step; "
         "(7) 25 % of the AST cases additionally re-enter the compiler (initialize_flow twice / recompile the same parsed flows once or twice); "
         "(8) Colang 1.0 histories (LLMRails on a shared RailsConfig, reload, generate, _process_start_flow with generated bodies). "
+        "(9) phase 5: the 1.0 source generator covers EVERY statement form colang_parser dispatches on (user / bot incl. quoted, `...`, `or`, with-params, inline examples; event; do; "
+        "goto / go to; meta incl. indented params and the `priority` shorthand; set / += / -= / `...`; check; run / execute / exec incl. result variable and params; label / checkpoint / "
+        "`set … label to` incl. values; if / else if / else; while; any; infer / new / create; pass / continue; stop / abort; break; return / done incl. values; when / else when on user / bot / "
+        "event specs, nested) in every block position (`meta` as first / middle / last / only statement of flow body, then / else-if / else body, loop body, when branch), flow headers with "
+        "every modifier (subflow, extension, parallel, sample, repair, non-interruptable), flows that start with a loop / if / when; (10) every compiled 1.0 flow (files, generated source, "
+        "generated item trees) additionally goes through the REAL RuntimeV1_0._init_flow_configs / _load_flow_config and the elements the runtime HOLDS get the same scan, the proved "
+        "checker v1Closed and a differential against the Lean model loadFlow; (11) v1yaml: the same item trees in CoYML shorthand (every key _dict_to_element accepts) through the second "
+        "loading route RailsConfig.parse_object / from_content(yaml) + the loader; (12) v1rt inspects EVERY flow of the configuration and of every live runtime (default / library flows "
+        "too), 30 % of the configurations use generated flows as input / output rails (LLMRails marks them as subflows); (13) a compile case that fails is re-run in a fresh interpreter: a "
+        "failure that depends on what the worker compiled before gets the class @after-other-compilations and is turned into a hermetic sequence case (v1seq / v2seq). "
         "non-trivial = the compiled flow contains at least one jump target / relative offset; distinct = distinct case JSON.")
 TRUSTED_BASE = [
     "harness/props/C12.py: encoders real element -> Prim / Elem JSON (class name and four attributes per element), AST -> Stmt / Item converters, label canonicaliser",
@@ -61,6 +71,7 @@ ASSUMPTIONS = [
     "scope pairing in `Closed` is on the linear element order; the per-path statement (no BeginScope met while the scope is held, no failing look-up) is proved per program by the certificate checker `pathSafe` on every real flow that opens a scope (<= 400 elements)",
     "a flow the loader rejects (syntax error, expansion error) is outside the property; such inputs are counted and listed",
     "re-compilation of a parsed flow: the Lean theorem (`recompile_closed`) is about the REPAIRED compiler (fixes/C12-loop-exit-label-in-place.diff); the code as it is violates it inside the region of the open finding 2.x:dangling-target@recompiled-ast (`recompile_as_is_counterexample`) and satisfies `recompile_as_is_closed_partial` outside",
+    "Colang 1.0 loader model (`loadFlow`): `_load_flow_config` removes exactly the leading `meta` element; the theorems `v1_loaded_in_bounds` / `v1_loaded_leading_meta` are about `loadFlow ∘ compileFull`, tied by two differentials on every flow (parse_flow_elements vs compileFull on the items, runtime-held elements vs loadFlow of the compiled elements)",
     "generated v2rt programs are compiled, not executed (gated behind `match NeverSent()`): closedness is a static property of the flow configs the runtime holds; the corpus histories execute their loops",
 ]
 
@@ -74,6 +85,9 @@ MODELLED = [
     ("nemoguardrails/colang/v1_0/lang/coyml_parser.py", None, "_resolve_gotos"),
     ("nemoguardrails/colang/v1_0/lang/coyml_parser.py", None, "_process_ellipsis"),
     ("nemoguardrails/colang/v1_0/runtime/sliding.py", None, "slide"),
+    ("nemoguardrails/colang/v1_0/runtime/runtime.py", "RuntimeV1_0", "_load_flow_config"),
+    ("nemoguardrails/colang/v1_0/runtime/runtime.py", "RuntimeV1_0", "_process_start_flow"),
+    ("nemoguardrails/rails/llm/config.py", "RailsConfig", "parse_object"),
     ("nemoguardrails/colang/v2_x/lang/expansion.py", None, "expand_elements"),
     ("nemoguardrails/colang/v2_x/lang/expansion.py", None, "_expand_if_element"),
     ("nemoguardrails/colang/v2_x/lang/expansion.py", None, "_expand_while_stmt_element"),
@@ -366,14 +380,20 @@ def _v1_block(rng, depth, in_loop, ind, out, labels):
                 out.extend(_v1_lines(pad, rng.choice(V1_RARE)))
 
 
-def gen_v1_src(rng, depth, rt=False):
+def gen_v1_src(rng, depth, rt=False, free=()):
     out = []
     for i in range(rng.choice([1, 2, 3])):
-        hdr = rng.choice(V1_HEADERS)
+        hdr = rng.choice(V1_HEADERS) if i not in free else rng.choice(["flow", "flow", "flow", "subflow", "extension flow"])
         out.append("define %s f%d" % (hdr, i))
-        # (in a configuration that holds conversations only a subflow may start with a non-event: it is never started by an event)
-        if rng.random() < 0.85 or (rt and hdr != "subflow"):  # (else the flow STARTS with whatever the block starts with: a loop, an `if`, a `when` …)
+        # (in a configuration that holds conversations only a subflow / a rail flow may start with a non-event: it is never started by an event)
+        if (rng.random() < 0.85 and i not in free) or (rt and hdr != "subflow" and i not in free):  # (else the flow STARTS with whatever the block starts with: a loop, an `if`, a `when` …)
             out.append("  user said start")
+        elif rng.random() < 0.4:  # a loop / a checkpoint that is the FIRST element of the flow (backward offsets reach index 0)
+            if rng.random() < 0.7:
+                out.append("  while $x < 3")
+                _v1_block(rng, max(depth - 1, 0), True, 2, out, [])
+            else:
+                out.extend(["  label top", "  bot say a", "  if $x", "    goto top"])
         _v1_block(rng, depth, False, 1, out, [])
         out.append("")
     return "\n".join(out) + "\n"
@@ -581,7 +601,11 @@ def _v1_defined_gotos(src):
 
 
 def gen_v1_rt(rng, depth):
-    src = "define user express greeting\n  \"hello\"\n\n" + _v1_defined_gotos(gen_v1_src(rng, depth, True))
+    # 30 %: some of the generated flows are the configuration's input / output rails (LLMRails marks them `is_subflow`); like
+    # real rail flows (`$ok = execute …`, `if not $ok` …) they start with whatever their block starts with; such a
+    # configuration holds no conversation here (a rail would run the generated body)
+    free = [i for i in range(3) if rng.random() < 0.6] if rng.random() < 0.3 else []
+    src = "define user express greeting\n  \"hello\"\n\n" + _v1_defined_gotos(gen_v1_src(rng, depth, True, free))
     # (subflow / extension / parallel … headers and `meta` / `priority` statements of the flow body give the flow a leading
     # `meta` element which `_load_flow_config` slices off (`elements[1:]`) AFTER the offsets were computed; `meta` statements
     # inside blocks stay where they are)
@@ -599,17 +623,14 @@ def gen_v1_rt(rng, depth):
             _v1_block(rng, rng.randrange(1, depth + 1), False, 0, body, [])
             steps.append(["dyn", "dyn%d" % rng.randrange(3), _v1_defined_gotos("\n".join(body) + "\n")])
     case = {"kind": "v1rt", "src": src, "steps": steps}
-    if rng.random() < 0.3:
-        # some of the generated flows are the configuration's input / output rails (LLMRails marks them as subflows); such a
-        # configuration holds no conversation here (a rail would run the generated body)
-        ids = re.findall(r"(?m)^define (?:[\w-]+ )*flow (f\d)$", src)
-        rails = {"input": [], "output": []}
-        for f in ids:
-            if rng.random() < 0.6:
-                rails[rng.choice(["input", "output"])].append(f)
-        if rails["input"] or rails["output"]:
-            case["rails"] = rails
-            case["steps"] = [["new"] if st[0] == "gen" else st for st in steps]
+    ids = re.findall(r"(?m)^define (?:[\w-]+ )*flow (f\d)$", src)
+    rails = {"input": [], "output": []}
+    for i in free:
+        if "f%d" % i in ids:
+            rails[rng.choice(["input", "output"])].append("f%d" % i)
+    if rails["input"] or rails["output"]:
+        case["rails"] = rails
+        case["steps"] = [["new"] if st[0] == "gen" else st for st in steps]
     return case
 
 
@@ -1477,6 +1498,15 @@ def scan_v1(elements):
             probs.append(f"missing-offset: element {i} `while` without _next_on_break")
         if t == "jump" and "_next" not in e:
             probs.append(f"missing-offset: element {i} `jump` without _next")
+        # "every jump target exists": a resolved `goto <name>` (`_resolve_gotos` leaves `_debug = "goto <name>"`) must land on the
+        # element that was the checkpoint `<name>` (`_label = <name>`) of the SAME flow
+        dbg = e.get("_debug")
+        if t == "jump" and isinstance(dbg, str) and dbg.startswith("goto ") and "_next" in e and not e.get("_absolute"):
+            tgt = i + int(e["_next"])
+            if 0 <= tgt < n and elements[tgt].get("_label") != dbg[5:]:
+                probs.append(f"goto-misses-checkpoint: element {i} is the resolved `{dbg}` and lands on element {tgt}, which is not the checkpoint `{dbg[5:]}` ({elements[tgt].get('_type')}, _label={elements[tgt].get('_label')!r})")
+            elif tgt == n:
+                probs.append(f"goto-misses-checkpoint: element {i} is the resolved `{dbg}` and lands on the end of the flow, not on the checkpoint `{dbg[5:]}`")
     return probs
 
 
@@ -1583,41 +1613,55 @@ def load_v1_flows(flow_dicts):
     return recs
 
 
+# every shorthand key `_dict_to_element` accepts, grouped by the `_type` it produces (the n-th use takes the n-th alias)
 V1_SHORT = {
-    "UserIntent": lambda: {"user": "said a"}, "run_action": lambda: {"bot": "say x"}, "break": lambda: {"break": True},
-    "continue": lambda: {"continue": True}, "stop": lambda: {"stop": True}, "check": lambda: {"check": "$x"},
-    "set": lambda: {"set": "$x = 1"}, "meta": lambda: {"meta": {"note": "n"}}, "flow": lambda: {"flow": "g"},
+    "UserIntent": [{"user": "said a"}, {"intent": "said b"}, {"you": "said c"}, {"user": "said a(x=1)"}],
+    "run_action": [{"bot": "say x"}, {"utter": "say y"}, {"ask": "say z"}, {"bot_ask": "say q"}, {"run": "act"}, {"action": "act(a=1)"},
+                   {"execute": "$r = act"}, {"infer": [{"event": "X"}]}, {"add": [{"user": "said i"}]}, {"new": {"event": "Y"}},
+                   {"post": [{"event": "Z"}]}],
+    "break": [{"break": True}], "continue": [{"continue": True}, {"pass": True}], "stop": [{"stop": True}, {"abort": True}],
+    "check": [{"check": "$x"}], "set": [{"set": "$x = 1"}, {"set": "x = $x + 1"}],
+    "meta": [{"meta": {"note": "n"}}, {"meta": {"priority": 2}}, {"meta": {}}],
+    "flow": [{"flow": "g"}, {"call": "g($x)"}, {"activate": "g"}],
 }
 
 
-def build_v1_yaml(items):
+def _v1_short(kind, n):
+    alts = V1_SHORT[kind]
+    return copy.deepcopy(alts[n[0] % len(alts)])
+
+
+
+def build_v1_yaml(items, n=None):
     """the same item trees in the CoYML SHORTHAND of a `flows:` section of config.yml (second loading route:
     `RailsConfig.parse_object` -> `parse_flow_elements`)"""
     out = []
+    n = n if n is not None else [0]
     for it in items:
         k = it[0]
+        n[0] += 1
         if k == "s":
-            out.append(V1_SHORT[it[1]]())
+            out.append(_v1_short(it[1], n))
         elif k == "ell":
             out.append({"set": "$x = ..."})
         elif k == "ret":
             out.append({"return": True})
         elif k == "label":
-            out.append(dict({"label": it[1]}, **({"value": it[2]} if len(it) > 2 else {})))
+            out.append(dict({"label" if n[0] % 2 else "checkpoint": it[1]}, **({"value": it[2]} if len(it) > 2 else {})))
         elif k == "goto":
             out.append({"goto": it[1]})
         elif k == "if":
-            d = {"if": "$x", "then": build_v1_yaml(it[1])}
+            d = {"if": "$x", "then": build_v1_yaml(it[1], n)}
             if it[2]:
-                d["else"] = build_v1_yaml(it[2])
+                d["else"] = build_v1_yaml(it[2], n)
             out.append(d)
         elif k == "while":
-            out.append({"while": "$x", "do": build_v1_yaml(it[1])})
+            out.append({"while": "$x", "do": build_v1_yaml(it[1], n)})
         elif k == "any":
-            out.append({"any": [V1_SHORT[c]() for c in it[1]]})
+            out.append({"any" if n[0] % 2 else "or": [_v1_short(c, [n[0] + j]) for j, c in enumerate(it[1])]})
         elif k == "br":
             for b in it[1]:
-                out.append(build_v1_yaml(b))
+                out.append(build_v1_yaml(b, n))
         else:
             raise ValueError(k)
     return out
@@ -1688,7 +1732,76 @@ def compile_v1_source(filename, content, load=True):
     return out
 
 
+# ---- phase 5: state of the code under test that survives across compilations (memoisation keyed too coarsely, shared
+# mutable results, …).  Every worker process compiles thousands of programs one after the other, so such state IS exercised;
+# what is missing is a self-contained failing input.  A compile case whose from-scratch scan fails is therefore run again
+# in a FRESH interpreter: when it is clean there, the failure depends on what the process compiled before, the smallest
+# suffix of the worker's own history that reproduces it in a fresh interpreter is attached, the finding gets the history
+# class `@after-other-compilations`, and the shrinker turns it into a hermetic `v1seq` / `v2seq` case (a sequence of
+# programs, always run in a fresh interpreter).
+HIST_KINDS = ("v1items", "v1yaml", "v1src", "v2src", "v2ast")
+_HIST = []
+_CONFIRM_BUDGET = [3]
+_NEEDS = {}
+
+
+def _has_problem(obs):
+    return any(f.get("oracle") or f.get("oracle_paths") for f in obs.get("flows", []))
+
+
+def _fresh(cases):
+    """run the cases one after the other in a fresh interpreter; list of observations or None"""
+    import subprocess
+    import sys
+
+    code = ("import sys, json\nfrom harness.props import C12 as m\nm._CONFIRM_BUDGET[0] = 0\nm.worker_init()\n"
+            "cases = json.load(sys.stdin)\nout = [m._run_impl(c) for c in cases]\nsys.stdout.write('\\n@@RESULT@@' + json.dumps(out, default=str))\n")
+    try:
+        p = subprocess.run([sys.executable, "-c", code], input=json.dumps(cases).encode(), stdout=subprocess.PIPE, stderr=subprocess.DEVNULL,
+                           timeout=300, cwd=os.path.dirname(os.path.dirname(os.path.dirname(os.path.abspath(__file__)))))
+        return json.loads(p.stdout.decode().split("@@RESULT@@")[-1])
+    except Exception:  # noqa
+        return None
+
+
 def run_impl(case):
+    k = case["kind"]
+    if k in ("v1seq", "v2seq"):
+        res = _fresh(case["seq"])
+        if not res:
+            return {"version": "1.0" if k == "v1seq" else "2.x", "flows": [], "reject": "fresh interpreter: no result"}
+        obs = res[-1]
+        for f in obs.get("flows", []):
+            if f.get("oracle") or f.get("oracle_paths"):
+                f["cls"] = "@after-other-compilations"
+        obs["hermetic"] = len(case["seq"])
+        return obs
+    obs = _run_impl(case)
+    if k in HIST_KINDS:
+        if _has_problem(obs) and _CONFIRM_BUDGET[0] > 0:
+            _CONFIRM_BUDGET[0] -= 1
+            fresh = _fresh([case])
+            if fresh is not None and not _has_problem(fresh[0]):
+                need = None
+                for m in (1, 2, 4, 8, 16, 32):
+                    hist = [c for c in _HIST[-m:]]
+                    r = _fresh(hist + [case])
+                    if r and _has_problem(r[-1]):
+                        need = hist
+                        break
+                    if m >= len(_HIST):
+                        break
+                for f in obs["flows"]:
+                    if f.get("oracle") or f.get("oracle_paths"):
+                        f["cls"] = "@after-other-compilations"
+                obs["history_dependent"] = True
+                obs["history"] = need
+        _HIST.append(case)
+        del _HIST[:-32]
+    return obs
+
+
+def _run_impl(case):
     k = case["kind"]
     if k == "file":
         path = os.path.join(REPO, case["path"])
@@ -1931,7 +2044,7 @@ def compare(case, obs, mouts):
         else:
             if "elems" in f:
                 m = next(it)
-                ok_impl = not [p for p in f["oracle"] if not p.startswith("adapter:")]
+                ok_impl = not [p for p in f["oracle"] if not p.startswith(("adapter:", "goto-misses-checkpoint"))]  # (the checker has no names after resolution)
                 if m["ok"] != ok_impl:
                     return f"flow {f['id']}: Lean checker says in-bounds={m['ok']} (first bad {m['bad']}), from-scratch scan says {f['oracle'][:1] or 'ok'}"
             if "items" in f:
@@ -1964,6 +2077,10 @@ def _where(case, obs, f):
     hist = ""
     if f.get("loaded"):
         hist = " [the elements RuntimeV1_0 holds after _load_flow_config; history class @loaded]"
+    if f.get("cls") == "@after-other-compilations":
+        n = obs.get("hermetic")
+        hist += (f" [last of {n} programs compiled one after the other in a fresh interpreter" if n else
+                 " [clean in a fresh interpreter, fails after the programs this process compiled before (obs.history)") + "; history class @after-other-compilations]"
     if "snap" in f:
         hist = f" [after step {f['snap'][0]} of the history, instance/view {f['snap'][1]}{'/' + f['view'] if 'view' in f else ''}; history class {f.get('cls') or '@first-compilation'}]"
     return f"{where} flow `{f['id']}` (Colang {obs['version']}){hist}: "
@@ -1971,6 +2088,8 @@ def _where(case, obs, f):
 
 def oracle(case, obs):
     flows = obs.get("flows", [])
+    if obs.get("history"):
+        _NEEDS[json.dumps(case, sort_keys=True, default=str)] = obs["history"]
     for f in flows:  # static closedness first, so that a recorded path-level finding never hides it
         if f.get("oracle"):
             return _where(case, obs, f) + "; ".join(f["oracle"][:3])
@@ -1981,7 +2100,7 @@ def oracle(case, obs):
 
 
 def signature(case, obs, msg):
-    m = re.search(r"(scope-reopened|dangling-target|merge-without-fork|scope-never-closed|endscope-without-beginscope|composite-left|label-table|offset-out-of-bounds|unresolved|missing-offset|adapter)", msg or "")
+    m = re.search(r"(scope-reopened|dangling-target|merge-without-fork|scope-never-closed|endscope-without-beginscope|composite-left|label-table|offset-out-of-bounds|unresolved|missing-offset|goto-misses-checkpoint|adapter)", msg or "")
     if not m:
         return None
     h = re.search(r"history class (@[a-z-]+)", msg or "")
@@ -2062,6 +2181,21 @@ def tags(case, obs):
             t.append("v1:len<10" if n < 10 else "v1:len<50" if n < 50 else "v1:len>=50")
             if "items" in f:
                 t.append("v1:dynamic-flow-differential" if f.get("dyn") else "v1:compile-differential")
+            if any(e["k"] == "meta" for e in f["elems"][1:]):
+                t.append("v1:nested-meta" + ("@held-by-runtime" if "from" in f else ""))
+            if "from" in f:
+                t.append("v1:load-differential")
+                t.append("v1:leading-meta-sliced" if f["from"] and f["from"][0]["k"] == "meta" else "v1:loaded-unchanged")
+                spans = 0  # offsets of the held flow that span a nested meta element (what a wrong removal would shift)
+                for i, e in enumerate(f["elems"]):
+                    for off in [e[k] for k in ("n", "e", "b", "c") if e[k] is not None and not e["a"]] + e["h"]:
+                        lo, hi = sorted((i, i + off))
+                        if any(x["k"] == "meta" for x in f["elems"][lo + 1:hi]):
+                            spans += 1
+                if spans:
+                    t.append("v1:offset-spans-nested-meta@held-by-runtime")
+                if any(i + e[k] == len(f["elems"]) for i, e in enumerate(f["elems"]) for k in ("n", "e", "b") if e[k] is not None and not e["a"]):
+                    t.append("v1:offset-to-flow-end@held-by-runtime")
     return t
 
 
@@ -2085,6 +2219,15 @@ def _sub_tree(items):
 
 
 def shrink(case):
+    need = _NEEDS.get(json.dumps(case, sort_keys=True, default=str))
+    if need is not None:  # a history-dependent failure: the self-contained input is the sequence
+        yield {"kind": "v1seq" if case["kind"].startswith("v1") else "v2seq", "seq": need + [case]}
+        return
+    if case["kind"] in ("v1seq", "v2seq"):
+        seq = case["seq"]
+        for i in range(len(seq) - 1):
+            yield dict(case, seq=seq[:i] + seq[i + 1:])
+        return
     if case["kind"] == "v2ast":
         for s in _sub_tree(case["stmts"]):
             yield dict(case, stmts=s)
